@@ -16,7 +16,7 @@ def C(text, technique, design, partial=False):
 TIE = " Tie to /repo: constants regenerated from the source each run; the extracted model is replayed against the implementation bit for bit on generated cases, and the property's clauses are checked on the implementation's results (failing-input search)."
 
 CLAIMS = {
- "C01": C("Coq theorems on the DOPRI5 model (any number type): the solution advances only through steps whose weighted error norm is <= 1, and that norm is built from the user's atol/rtol. The global error bound itself is an analytic consequence and is only measured (closed-form families, tolerance sweeps)." + TIE,
+ "C01": C("Coq theorems on the DOPRI5, RK23 and DOP853 models (any number type, kernel, callback): the solution advances only through steps whose weighted error norm passed err <= 1; for DOPRI5 that norm is shown to be built from the user's atol/rtol. The global error bound itself is an analytic consequence and is only measured (closed-form families, tolerance sweeps)." + TIE,
           "Coq proof of the acceptance mechanism + bit-exact correspondence + accuracy experiment", "3/C01", True),
  "C02": C("Order conditions of every rooted tree up to p (and failure at p+1), embedded-estimator orders and row sums are Coq theorems over the tableaux regenerated from the Rust constants on every run, universally quantified over trees via a proved-complete enumeration: RK4 (4), RK23 (3, estimator 2->q=3), DOPRI5 (5, estimator 4->q=5), exact and as rounded to binary64; DOP853 (8; estimators of order 5 and 3; not 9) with the 30-digit decimals handled as scaled integers over the tableau's common denominator (every residual is M/D^|t| with |M| bounded by the certificate: <= gamma*1e-25, <= gamma*1e-13 for the binary64 values); Radau (5, not 6) for the effective matrix Aeff = T Lambda^-1 TI computed from the code's T, TI, U1, ALPH, BETA, whose stage equations on y'=lambda*y are proved (over the reals, every z with Q(z)<>0) to have the unique solution ynew = P(z)/Q(z) y with P, Q within 1e-15 of the (2,3) Pade approximant. That the code's Newton iteration has those stage equations as its fixed point is tied by the bit-exact replay and by single steps of the implementation compared with the Pade value (z down to -1e8), not by a theorem." + TIE,
           "Coq proof: rational / scaled-integer order-condition certificates (vm_compute + enumeration completeness) over constants translated from source; real-number proof of the stability function", "3/C02", True),
@@ -36,10 +36,10 @@ CLAIMS = {
           "Coq proof of the detection predicate + bit-exact correspondence", "3/C09", True),
  "C10": C("Coq theorems (any number type): a terminal event makes the newest sample the event point, the handler returns Interrupt iff a terminal event fired and never without a terminal configuration." + TIE,
           "Coq proof (handler model) + bit-exact correspondence", "3/C10", True),
- "C11": C("Coq theorems: step-budget count and bit-identical budget prefix (any number type), max_step bound with the 1% landing stretch (real semantics, any kernel)." + TIE,
-          "Coq proof of skeleton invariants + bit-exact correspondence", "3/C11", True),
- "C12": C("Coq theorems: the default handler is passive unless an event is terminal; two passive observers see literally the same solver trajectory (any number type, kernel, callbacks)." + TIE,
-          "Coq proof (relational invariant over the skeleton) + bit-exact correspondence", "3/C12", False),
+ "C11": C("Coq theorems: step-budget count (nstep <= max_steps+1; NeedLargerNMax only when the budget is used up) and budget-independence of an iteration below the budget, i.e. bit-identical prefix (DOPRI5, DOP853, RK23, Radau, BDF; any number type, kernel, callback); max_step bound with the 1% landing stretch (DOPRI5, DOP853; RK23 without stretch; real semantics, any kernel); RK4 uses exactly the given step. Not theorems: max_step / first_step for Radau and BDF, the automatic initial step." + TIE,
+          "Coq proof of skeleton invariants (symbolic execution of each loop iteration) + bit-exact correspondence", "3/C11", True),
+ "C12": C("Coq theorems: the default handler is passive unless an event is terminal; for ALL SIX solvers two passive observers (any callbacks that return Continue and leave the state alone) see literally the same solver run -- accepted steps, states, step sizes, flags, factorisations, statistics, evaluation logs, status (any number type, kernel / right-hand side / Jacobian / mass; RK23, RK4, Radau, BDF by erasure of the observer's data)." + TIE,
+          "Coq proof (relational / erasure invariant over each solver loop) + bit-exact correspondence", "3/C12", False),
  "C13": C("Coq theorem: a scalar tolerance denotes the same per-component vector as the constant vector (all models read tolerances through it). Reflection/scaling/duplication equivariance are checked by paired bit-exact runs." + TIE,
           "Coq proof (tolerance representation) + paired differential runs", "3/C13", True),
  "C14": C("Coq theorem (reals) about the Runge-Kutta matrix Radau effectively applies (Aeff = T Lambda^-1 TI from the regenerated constants): for every z = h*lambda <= 0 the stage equations of y'=lambda*y are uniquely solvable (Q(z) >= 1) and give ynew = R(z) y with |R(z)| <= 1, and |R(z)| <= 100/|z| + 1e-13 for |z| >= 1 -- decaying modes of any rate are damped for every step size. Not theorems: convergence of the simplified Newton iteration, BDF's stability, success/accuracy/step counts on nonlinear problems and invariants -- measured: Radau and BDF (incl. real and complex LU, Newton iterations) are replayed bit for bit on stiff linear/nonlinear problems with rates 1e2..1e10, single Radau steps are compared with the Pade value, and success, accuracy, step counts and invariants are checked on the implementation." + TIE,
